@@ -39,6 +39,8 @@ type c06Env struct {
 	genMatched, genUnmatched   *core.FuncInfo
 	populate, addTr, addData   *core.FuncInfo
 	createOffer, createAnswer  *core.FuncInfo
+
+	secHelpers map[*types.Func]c06SecHelperInfo // memo of c06SectionHelper
 }
 
 // c06Anchors resolves the anchors shared by the four properties. Failures are recorded under rule.
@@ -1283,11 +1285,59 @@ func (f *c06Finite) infeasible(e core.Edge, val c06Valuation) bool {
 type c06Section struct {
 	Fi     *core.FuncInfo
 	G      *core.Graph
-	Node   int // graph node holding the literal (-1 when it lies inside a function literal)
+	Node   int // graph node holding the literal / the helper call (-1 when it lies inside a function literal)
 	Lit    *ast.CompositeLit
+	Expr   ast.Expr // the expression as written in Fi: the literal, or the helper call
 	Fields map[string]ast.Expr
-	// set when the literal is the appended element of `L = append(L, lit)`
+	// set when the section is the appended element of `L = append(L, <section>)`
 	AppendTo *types.Var
+	// Helper is set when the section is written `newSection(args)`: a same-package function whose only
+	// return statement returns the literal. Fields that are plain helper parameters are replaced by the
+	// caller's arguments; the others stay expressions of the helper (inHelper) and are read through the
+	// methods below, which map helper parameters back to the caller.
+	Helper   *c06SecHelper
+	inHelper map[string]bool
+	// HelperBody marks the literal inside such a helper (judged at its call sites, not in place)
+	HelperBody bool
+}
+
+type c06SecHelper struct {
+	fi   *core.FuncInfo
+	g    *core.Graph
+	call *ast.CallExpr
+	ret  int
+}
+
+// arg returns the caller's argument bound to the helper's (never reassigned) parameter v.
+func (h *c06SecHelper) arg(v *types.Var) ast.Expr {
+	if v == nil || c06AssignedAnywhere(h.g, v) != 0 {
+		return nil
+	}
+	i := c06IsParam(h.g, v)
+	sig := h.g.Sig()
+	if i < 0 || i >= len(h.call.Args) || h.call.Ellipsis.IsValid() || sig == nil || (sig.Variadic() && i == sig.Params().Len()-1) {
+		return nil
+	}
+	return h.call.Args[i]
+}
+
+// callerVar maps a variable met while reading a helper-context field to the caller's variable.
+func (s *c06Section) callerVar(v *types.Var) *types.Var {
+	if s.Helper == nil || v == nil {
+		return v
+	}
+	if a := s.Helper.arg(v); a != nil {
+		return core.VarOf(s.G.Info, a)
+	}
+	return nil
+}
+
+// pos is where the section is written in the function that uses it.
+func (s *c06Section) pos() token.Pos {
+	if s.Helper != nil {
+		return s.Helper.call.Pos()
+	}
+	return s.Lit.Pos()
 }
 
 func (s *c06Section) fieldNames() string {
@@ -1299,7 +1349,7 @@ func (s *c06Section) fieldNames() string {
 	return strings.Join(ks, ",")
 }
 
-// isData reports whether the literal sets data to the constant true.
+// isData reports whether the section sets data to the constant true.
 func (s *c06Section) isData() bool {
 	e, ok := s.Fields["data"]
 	if !ok {
@@ -1307,6 +1357,90 @@ func (s *c06Section) isData() bool {
 	}
 	b, isC := c06ConstBool(s.G.Info, e)
 	return isC && b
+}
+
+// idSrc classifies the provenance of the section's id in the function that uses the section.
+func (s *c06Section) idSrc(env *c06Env) (c06Src, bool) {
+	e, has := s.Fields["id"]
+	if !has {
+		return c06Src{}, false
+	}
+	if s.Helper == nil || !s.inHelper["id"] {
+		return c06MidSource(env, s.G, s.Node, e), true
+	}
+	h := s.Helper
+	src := c06MidSource(env, h.g, h.ret, e)
+	if src.Class == "param" {
+		if a := h.arg(src.Var); a != nil {
+			return c06MidSource(env, s.G, s.Node, a), true
+		}
+		return c06Src{Class: "other", Desc: src.Desc + " of " + h.fi.Name()}, true
+	}
+	if src.Var != nil {
+		src.Var = s.callerVar(src.Var)
+	}
+	return src, true
+}
+
+// soleTransceiver returns the variable v when the section's transceivers field is `[]*RTPTransceiver{v}`.
+func (s *c06Section) soleTransceiver() *types.Var {
+	e, has := s.Fields["transceivers"]
+	if !has {
+		return nil
+	}
+	cl, isLit := ast.Unparen(e).(*ast.CompositeLit)
+	if !isLit || len(cl.Elts) != 1 {
+		return nil
+	}
+	v := core.VarOf(s.G.Info, cl.Elts[0])
+	if s.Helper != nil && s.inHelper["transceivers"] {
+		return s.callerVar(v)
+	}
+	return v
+}
+
+// c06SectionHelper recognises a same-package function that builds a mediaSection: one result of that
+// type and a single return statement returning a composite literal. It returns the literal and the return node.
+func c06SectionHelper(env *c06Env, fn *types.Func) (*core.FuncInfo, *ast.CompositeLit, int) {
+	if fn == nil {
+		return nil, nil, -1
+	}
+	if c, ok := env.secHelpers[fn]; ok {
+		return c.fi, c.lit, c.ret
+	}
+	if env.secHelpers == nil {
+		env.secHelpers = map[*types.Func]c06SecHelperInfo{}
+	}
+	env.secHelpers[fn] = c06SecHelperInfo{ret: -1}
+	fi := env.c.P.DeclOf(fn)
+	if fi == nil || fi.Decl.Body == nil {
+		return nil, nil, -1
+	}
+	sig, _ := fn.Type().(*types.Signature)
+	if sig == nil || sig.Results().Len() != 1 || !types.Identical(sig.Results().At(0).Type(), env.msType) {
+		return nil, nil, -1
+	}
+	g := env.c.P.GraphOf(fi)
+	rets := g.Returns()
+	if len(rets) != 1 {
+		return nil, nil, -1
+	}
+	ret, _ := g.Nodes[rets[0]].Ast.(*ast.ReturnStmt)
+	if ret == nil || len(ret.Results) != 1 {
+		return nil, nil, -1
+	}
+	cl, ok := ast.Unparen(ret.Results[0]).(*ast.CompositeLit)
+	if !ok || !c06IsNamed(g.Info.TypeOf(cl), env.msType) {
+		return nil, nil, -1
+	}
+	env.secHelpers[fn] = c06SecHelperInfo{fi: fi, lit: cl, ret: rets[0]}
+	return fi, cl, rets[0]
+}
+
+type c06SecHelperInfo struct {
+	fi  *core.FuncInfo
+	lit *ast.CompositeLit
+	ret int
 }
 
 // c06TailAppend recognises `L = append(L, elems...)` (one variable on each side, no ellipsis) in node n.
@@ -1326,7 +1460,24 @@ func c06TailAppend(info *types.Info, a ast.Node) (l *types.Var, elems []ast.Expr
 	return lv, call.Args[1:], true
 }
 
-// c06Sections lists the mediaSection composite literals of a function.
+// c06LitFields maps field names to the value expressions of a mediaSection literal.
+func c06LitFields(env *c06Env, cl *ast.CompositeLit) map[string]ast.Expr {
+	out := map[string]ast.Expr{}
+	st, _ := env.msType.Underlying().(*types.Struct)
+	for i, el := range cl.Elts {
+		if kv, ok := el.(*ast.KeyValueExpr); ok {
+			if id, ok := kv.Key.(*ast.Ident); ok {
+				out[id.Name] = kv.Value
+			}
+		} else if st != nil && i < st.NumFields() {
+			out[st.Field(i).Name()] = el
+		}
+	}
+	return out
+}
+
+// c06Sections lists the media sections a function builds: mediaSection composite literals, and calls of a
+// same-package helper that returns such a literal.
 func c06Sections(env *c06Env, fi *core.FuncInfo) []*c06Section {
 	g := env.c.P.GraphOf(fi)
 	if g == nil {
@@ -1334,43 +1485,68 @@ func c06Sections(env *c06Env, fi *core.FuncInfo) []*c06Section {
 	}
 	info := g.Info
 	var out []*c06Section
-	nodeOf := map[*ast.CompositeLit]int{}
-	appendOf := map[*ast.CompositeLit]*types.Var{}
+	isSectionExpr := func(x ast.Node) (ast.Expr, bool) {
+		switch e := x.(type) {
+		case *ast.CompositeLit:
+			if c06IsNamed(info.TypeOf(e), env.msType) {
+				return e, true
+			}
+		case *ast.CallExpr:
+			if hfi, _, _ := c06SectionHelper(env, core.Callee(info, e)); hfi != nil {
+				return e, true
+			}
+		}
+		return nil, false
+	}
+	nodeOf := map[ast.Expr]int{}
+	appendOf := map[ast.Expr]*types.Var{}
 	for _, n := range g.Nodes {
 		if n.Ast == nil {
 			continue
 		}
 		core.InspectShallow(n.Ast, func(x ast.Node) bool {
-			if cl, ok := x.(*ast.CompositeLit); ok && c06IsNamed(info.TypeOf(cl), env.msType) {
-				nodeOf[cl] = n.ID
+			if e, ok := isSectionExpr(x); ok {
+				nodeOf[e] = n.ID
 			}
 			return true
 		})
 		if l, elems, ok := c06TailAppend(info, n.Ast); ok {
 			for _, el := range elems {
-				if cl, ok := ast.Unparen(el).(*ast.CompositeLit); ok {
-					appendOf[cl] = l
+				if e, ok := isSectionExpr(ast.Unparen(el)); ok {
+					appendOf[e] = l
 				}
 			}
 		}
 	}
+	_, ownLit, _ := c06SectionHelper(env, fi.Obj)
 	ast.Inspect(fi.Decl.Body, func(x ast.Node) bool {
-		cl, ok := x.(*ast.CompositeLit)
-		if !ok || !c06IsNamed(info.TypeOf(cl), env.msType) {
+		e, ok := isSectionExpr(x)
+		if !ok {
 			return true
 		}
-		s := &c06Section{Fi: fi, G: g, Node: -1, Lit: cl, Fields: map[string]ast.Expr{}, AppendTo: appendOf[cl]}
-		if n, ok := nodeOf[cl]; ok {
+		s := &c06Section{Fi: fi, G: g, Node: -1, Expr: e, AppendTo: appendOf[e], inHelper: map[string]bool{}}
+		if n, ok := nodeOf[e]; ok {
 			s.Node = n
 		}
-		st, _ := env.msType.Underlying().(*types.Struct)
-		for i, el := range cl.Elts {
-			if kv, ok := el.(*ast.KeyValueExpr); ok {
-				if id, ok := kv.Key.(*ast.Ident); ok {
-					s.Fields[id.Name] = kv.Value
+		switch v := e.(type) {
+		case *ast.CompositeLit:
+			s.Lit = v
+			s.Fields = c06LitFields(env, v)
+			s.HelperBody = ownLit != nil && v == ownLit
+		case *ast.CallExpr:
+			hfi, lit, ret := c06SectionHelper(env, core.Callee(info, v))
+			h := &c06SecHelper{fi: hfi, g: env.c.P.GraphOf(hfi), call: v, ret: ret}
+			s.Helper, s.Lit = h, lit
+			s.Fields = map[string]ast.Expr{}
+			for name, fe := range c06LitFields(env, lit) {
+				if a := h.arg(core.VarOf(info, fe)); a != nil {
+					s.Fields[name] = a // a plain parameter: read the caller's argument
+				} else {
+					s.Fields[name] = fe
+					if _, isConst := info.Types[fe]; !isConst || info.Types[fe].Value == nil {
+						s.inHelper[name] = true
+					}
 				}
-			} else if st != nil && i < st.NumFields() {
-				s.Fields[st.Field(i).Name()] = el
 			}
 		}
 		out = append(out, s)
@@ -1560,4 +1736,266 @@ func c06Agree386(c *Ctx, rule string, run func(*Ctx)) {
 		diff = append(diff[:6], sprintf("… %d more", len(diff)-6))
 	}
 	c.R.Check(len(diff) == 0, rule, "config:linux/386|same-verdicts", "-", sprintf("%d constructs judged identically on linux/386", len(b)), "the rules give different verdicts on the 386 configuration: "+strings.Join(diff, "; "))
+}
+
+// ---------------------------------------------------------------------------
+// strings built from constants and values: a + b concatenations and fmt.Sprintf with plain verbs,
+// with constant folding through named constants (`sdp.AttrKeyMsid + ":"` is the constant "msid:")
+
+type c06Part struct {
+	IsConst bool
+	Const   string
+	Expr    ast.Expr // the non-constant operand
+}
+
+// c06StringParts normalises a string-building expression into alternating constant / value parts
+// (adjacent constants merged). ok=false when the expression is not of a recognised shape.
+func c06StringParts(info *types.Info, e ast.Expr) ([]c06Part, bool) {
+	var raw []c06Part
+	var walk func(e ast.Expr) bool
+	walk = func(e ast.Expr) bool {
+		e = ast.Unparen(e)
+		if s, ok := c06ConstString(info, e); ok {
+			raw = append(raw, c06Part{IsConst: true, Const: s})
+			return true
+		}
+		if be, ok := e.(*ast.BinaryExpr); ok && be.Op == token.ADD {
+			return walk(be.X) && walk(be.Y)
+		}
+		if call, ok := e.(*ast.CallExpr); ok && c06ExtFunc(info, call, "fmt", "Sprintf") && len(call.Args) >= 1 && !call.Ellipsis.IsValid() {
+			format, isC := c06ConstString(info, call.Args[0])
+			if !isC {
+				return false
+			}
+			args := call.Args[1:]
+			ai := 0
+			for i := 0; i < len(format); i++ {
+				if format[i] != '%' {
+					j := i
+					for j < len(format) && format[j] != '%' {
+						j++
+					}
+					raw = append(raw, c06Part{IsConst: true, Const: format[i:j]})
+					i = j - 1
+					continue
+				}
+				if i+1 >= len(format) {
+					return false
+				}
+				switch format[i+1] {
+				case '%':
+					raw = append(raw, c06Part{IsConst: true, Const: "%"})
+				case 's', 'd', 'v':
+					if ai >= len(args) {
+						return false
+					}
+					a := args[ai]
+					ai++
+					if s, ok := c06ConstString(info, a); ok {
+						raw = append(raw, c06Part{IsConst: true, Const: s})
+					} else if tv, ok := info.Types[a]; ok && tv.Value != nil {
+						raw = append(raw, c06Part{IsConst: true, Const: tv.Value.ExactString()})
+					} else {
+						raw = append(raw, c06Part{Expr: a})
+					}
+				default:
+					return false // width / flags / other verbs: not normalised
+				}
+				i++
+			}
+			return ai == len(args)
+		}
+		raw = append(raw, c06Part{Expr: e})
+		return true
+	}
+	if !walk(e) {
+		return nil, false
+	}
+	var out []c06Part
+	for _, p := range raw {
+		if p.IsConst && p.Const == "" {
+			continue
+		}
+		if p.IsConst && len(out) > 0 && out[len(out)-1].IsConst {
+			out[len(out)-1].Const += p.Const
+			continue
+		}
+		out = append(out, p)
+	}
+	return out, true
+}
+
+// ---------------------------------------------------------------------------
+// counting an effect through same-module callees
+
+// c06Effect describes a counted effect: direct(info, node) is the number of occurrences in one AST node
+// (not descending into function literals).
+type c06Effect struct {
+	p       *core.Program
+	direct  func(info *types.Info, a ast.Node) int
+	spans   map[*types.Func]*c06Span // nil entry: in progress (recursion)
+	has     map[*types.Func]int      // 0 unknown, 1 no, 2 yes
+	maxDeep int
+}
+
+func c06NewEffect(p *core.Program, direct func(info *types.Info, a ast.Node) int) *c06Effect {
+	return &c06Effect{p: p, direct: direct, spans: map[*types.Func]*c06Span{}, has: map[*types.Func]int{}, maxDeep: 4}
+}
+
+// contains reports (AST only, memoised, depth-bounded) whether fn's body or a same-module callee performs the effect.
+func (ef *c06Effect) contains(fn *types.Func, depth int) bool {
+	if fn == nil {
+		return false
+	}
+	switch ef.has[fn] {
+	case 1:
+		return false
+	case 2:
+		return true
+	}
+	fi := ef.p.DeclOf(fn)
+	if fi == nil || fi.Decl.Body == nil || depth > ef.maxDeep {
+		return false
+	}
+	ef.has[fn] = 1 // provisional (breaks recursion)
+	info := fi.Pkg.TypesInfo
+	found := false
+	ast.Inspect(fi.Decl.Body, func(x ast.Node) bool {
+		if found || x == nil {
+			return false
+		}
+		if _, isLit := x.(*ast.FuncLit); isLit {
+			return false
+		}
+		switch s := x.(type) {
+		case ast.Stmt:
+			// direct effects are statements or expressions; test leaf statements only
+			switch s.(type) {
+			case *ast.IncDecStmt, *ast.AssignStmt, *ast.ExprStmt:
+				if ef.direct(info, s) > 0 {
+					found = true
+				}
+			}
+		case *ast.CallExpr:
+			if cal := core.Callee(info, s); cal != nil && ef.contains(cal, depth+1) {
+				found = true
+			}
+		}
+		return !found
+	})
+	if found {
+		ef.has[fn] = 2
+	}
+	return found
+}
+
+// span returns the min/max number of occurrences over all paths entry -> exit of fn (callees included).
+func (ef *c06Effect) span(fn *types.Func, depth int) c06Span {
+	if sp, ok := ef.spans[fn]; ok {
+		if sp == nil {
+			return c06Span{} // recursion: counted at the outer level
+		}
+		return *sp
+	}
+	fi := ef.p.DeclOf(fn)
+	if fi == nil || fi.Decl.Body == nil || !ef.contains(fn, depth) {
+		z := c06Span{}
+		ef.spans[fn] = &z
+		return z
+	}
+	ef.spans[fn] = nil
+	g := ef.p.GraphOf(fi)
+	sp, ok := c06PathCount(g, g.Entry, g.Exit, nil, nil, ef.weight(g, depth))
+	if !ok {
+		sp = c06Span{}
+	}
+	ef.spans[fn] = &sp
+	return sp
+}
+
+// weight is the per-node weight for graph g: direct occurrences plus the spans of the same-module
+// functions the node calls synchronously (calls in go statements and function literals do not count).
+func (ef *c06Effect) weight(g *core.Graph, depth int) func(int) c06Span {
+	cache := map[int]c06Span{}
+	return func(n int) c06Span {
+		if v, ok := cache[n]; ok {
+			return v
+		}
+		var sp c06Span
+		a := g.Nodes[n].Ast
+		if a != nil {
+			if _, isGo := a.(*ast.GoStmt); !isGo {
+				k := ef.direct(g.Info, a)
+				sp = sp.add(c06Span{k, k})
+				if depth < ef.maxDeep {
+					for _, call := range core.CallsIn(a) {
+						if cal := core.Callee(g.Info, call); cal != nil && ef.p.DeclOf(cal) != nil {
+							sp = sp.add(ef.span(cal, depth+1))
+						}
+					}
+				}
+			}
+		}
+		cache[n] = sp
+		return sp
+	}
+}
+
+// c06OnlyCalledFrom reports whether every use of fn in the module is a direct call located (outside
+// function literals and go statements) in root or in a function that itself is only called from root.
+func c06OnlyCalledFrom(p *core.Program, fn *types.Func, root *types.Func, depth int) bool {
+	if fn == root {
+		return true
+	}
+	if depth > 3 {
+		return false
+	}
+	uses := 0
+	ok := true
+	for _, fi := range p.AllFuncs() {
+		if fi.Decl.Body == nil {
+			continue
+		}
+		if !fn.Exported() && fi.Pkg.Types != fn.Pkg() {
+			continue // an unexported function / method cannot be named from another package
+		}
+		info := fi.Pkg.TypesInfo
+		var callFuns = map[*ast.Ident]bool{}
+		inAsync := map[*ast.CallExpr]bool{}
+		ast.Inspect(fi.Decl.Body, func(x ast.Node) bool {
+			switch s := x.(type) {
+			case *ast.GoStmt:
+				inAsync[s.Call] = true
+			case *ast.FuncLit:
+				ast.Inspect(s.Body, func(y ast.Node) bool {
+					if c, isCall := y.(*ast.CallExpr); isCall {
+						inAsync[c] = true
+					}
+					return true
+				})
+			case *ast.CallExpr:
+				if core.Callee(info, s) == fn.Origin() && !inAsync[s] {
+					switch f := ast.Unparen(s.Fun).(type) {
+					case *ast.Ident:
+						callFuns[f] = true
+					case *ast.SelectorExpr:
+						callFuns[f.Sel] = true
+					}
+				}
+			}
+			return true
+		})
+		ast.Inspect(fi.Decl.Body, func(x ast.Node) bool {
+			id, isID := x.(*ast.Ident)
+			if !isID || info.Uses[id] != types.Object(fn) {
+				return true
+			}
+			uses++
+			if !callFuns[id] || !c06OnlyCalledFrom(p, fi.Obj, root, depth+1) {
+				ok = false
+			}
+			return true
+		})
+	}
+	return ok && uses > 0
 }
